@@ -107,12 +107,16 @@ def run(tier, seed):
 
 
 def replay(path):
+    """re-runs the recorded problems on the current tree against the recorded rule verdicts"""
     data = json.loads(open(path).read())
     bad = 0
     for c in data["cases"]:
         sat, facts = PA.solve(c["puzzle"], c["h"], c["w"], c["problem"])
+        still = (sat != c["rules_say_sat"]) if "rules_say_sat" in c else (sat is not True or facts != c["expected_facts"])
         print(json.dumps({"puzzle": c["puzzle"], "h": c["h"], "w": c["w"], "problem": c["problem"], "observed_sat": sat,
-                          "observed_facts": facts, "expected": {k: c.get(k) for k in ("rules_say_sat", "expected_facts")}}))
-        bad += 1
-    print(f"VIOLATION property={PID} replay={path}")
-    return 1
+                          "observed_facts": facts, "expected": {k: c.get(k) for k in ("rules_say_sat", "expected_facts")},
+                          "still_violated": bool(still)}))
+        bad += bool(still)
+    if bad:
+        print(f"VIOLATION property={PID} replay={path}")
+    return 1 if bad else 0
